@@ -157,7 +157,7 @@ class Sandbox:
         """Apply one external mutation (ensure-semantics; never fails)."""
         op = m[0]
         if len(m) > 1 and isinstance(m[1], str) and any(
-                len(c.encode()) > 255 for c in m[1].split('/')):
+                len(os.fsencode(c)) > 255 for c in m[1].split('/')):
             return
         if op == 'write':
             path = self.p(m[1])
